@@ -217,6 +217,12 @@ Proof.
   - exists sol. subst resf. repeat split; auto.
 Qed.
 
+Lemma nth_error_firstn_lt {A : Type} (l : list A) : forall n j, (j < n)%nat -> nth_error (firstn n l) j = nth_error l j.
+Proof.
+  induction l as [|a l IH]; intros [|n] [|j] H; simpl; try reflexivity; try lia.
+  apply IH. lia.
+Qed.
+
 Theorem func_fit_fixed_kept f x y w ncoeff ia ans ifunc res yfit j v :
   func_fit f x y w ncoeff ia ans ifunc = Some (res, yfit) -> (2 <= ngood_of y w)%nat ->
   (j < Nat.min (ngood_of y w) ncoeff)%nat ->
@@ -226,16 +232,15 @@ Proof.
   intros H Hg Hj Hm Ha.
   destruct (func_fit_main _ _ _ _ _ _ _ _ _ _ H Hg) as [resf [Hc Hres]]. subst res.
   assert (Hm' : nth_error (firstn (Nat.min (ngood_of y w) ncoeff) ia) j = Some false).
-  { rewrite nth_error_firstn. destruct (Nat.ltb_spec j (Nat.min (ngood_of y w) ncoeff)); [exact Hm | lia]. }
+  { rewrite nth_error_firstn_lt by exact Hj. exact Hm. }
   pose proof (fit_core_fixed_kept _ _ _ _ _ _ _ _ j v Hc Hm' Ha) as Hn.
   rewrite nth_error_app1; [exact Hn|]. apply nth_error_Some. congruence.
 Qed.
 
 Lemma agree3_good w y y' : agree3 w y y' ->
-  (forall a b, a == b -> a = b) \/ True ->
   length (filter (fun p => Qlt_bool 0 (snd p)) (combine y w)) = length (filter (fun p => Qlt_bool 0 (snd p)) (combine y' w)).
 Proof.
-  intros H _. induction H as [|w0 a b ws ys ys' Hab H IH]; simpl; [reflexivity|].
+  intros H. induction H as [|w0 a b ws ys ys' Hab H IH]; simpl; [reflexivity|].
   destruct (Qlt_bool 0 w0); simpl; congruence.
 Qed.
 
@@ -247,9 +252,37 @@ Theorem func_fit_zero_weight_indep f x y y' w ncoeff ia ans ifunc res yfit :
   func_fit f x y' w ncoeff ia ans ifunc = Some (res, yfit).
 Proof.
   intros Hag Hg H.
-  pose proof (agree3_good w y y' Hag (or_intror I)) as EL.
+  pose proof (agree3_good w y y' Hag) as EL.
   unfold func_fit, ngood_of in *. rewrite <- EL.
   destruct (length (filter (fun p => Qlt_bool 0 (snd p)) (combine y w))) as [|[|k]] eqn:E; try lia.
   simpl in *. destruct (_ && _); [discriminate|].
   rewrite <- (fit_core_zero_weight_indep _ w y y' _ ia ans Hag). exact H.
+Qed.
+
+(* exact combinations: if the data of the free sub-problem are an exact combination c of the free basis rows, chi2
+   vanishes at the answer, every good point is reproduced exactly and (full column rank on the good points) the
+   coefficients are c *)
+Theorem func_fit_exact_recovery f x y w ncoeff ia ans ifunc res yfit c :
+  func_fit f x y w ncoeff ia ans ifunc = Some (res, yfit) -> (2 <= ngood_of y w)%nat ->
+  (ncoeff <= length ia)%nat -> Forall (fun v => 0 <= v) w ->
+  let ncfit := Nat.min (ngood_of y w) ncoeff in
+  let rows := scale_rows ifunc (map (basis_row f ncfit) x) in
+  let iaf := firstn ncfit ia in
+  let D := free_problem rows w y iaf (fixed_part ans ia) in
+  length c = count_true iaf ->
+  Forall (fun o => resid c o == 0) D ->
+  exists sol, res = scatter 0 iaf sol ans ++ zeros (ncoeff - ncfit) /\
+              chi2 D sol == 0 /\
+              Forall (fun o => 0 < snd (fst o) -> resid sol o == 0) D /\
+              ((forall z, length z = count_true iaf ->
+                  Forall (fun o => 0 < snd (fst o) -> dot (fst (fst o)) z == 0) D -> forall r, dot r z == 0)
+               -> veq sol c).
+Proof.
+  intros H Hg Hia Hw ncfit rows iaf D Lc Hc.
+  destruct (func_fit_main _ _ _ _ _ _ _ _ _ _ H Hg) as [resf [Hcore Hres]]. fold ncfit in Hcore, Hres. fold rows in Hcore.
+  unfold fit_core in Hcore. fold iaf in Hcore. fold D in Hcore.
+  destruct (wls_solve (count_true iaf) D) as [sol|] eqn:E; [|discriminate].
+  inversion Hcore; subst resf; clear Hcore. exists sol. split; [exact Hres|].
+  apply (wls_exact_recovery (count_true iaf) D sol c); auto.
+  apply free_problem_wf; [apply rows_len_scale, rows_len_basis | unfold ncfit; lia | exact Hw].
 Qed.
